@@ -18,6 +18,7 @@ def gen_cfg(rng):
     c["remoteip"] = b"192.0.2.7"
     c["remoteinfo"] = rng.choice([None, b"ident", b"id ent;x"])
     c["local"] = b"server.example"
+    c["unterminated"] = rng.random() < 0.3
     return c
 
 def gen_addr(rng):
@@ -85,8 +86,12 @@ class Smtpd:
             if val is None:
                 if os.path.exists(p): os.remove(p)
             else: open(p, "wb").write(val)
-        put("rcpthosts", None if c["rcpthosts"] is None else b"".join(x + b"\n" for x in c["rcpthosts"]))
-        put("badmailfrom", None if c["badmailfrom"] is None else b"".join(x + b"\n" for x in c["badmailfrom"]))
+        # the last line of a control file may lack its newline (files written with printf/echo -n): it still counts
+        def lines_(l):
+            t = b"".join(x + b"\n" for x in l)
+            return t[:-1] if t and c.get("unterminated") else t
+        put("rcpthosts", None if c["rcpthosts"] is None else lines_(c["rcpthosts"]))
+        put("badmailfrom", None if c["badmailfrom"] is None else lines_(c["badmailfrom"]))
         put("localiphost", None if c["localiphost"] is None else c["localiphost"] + b"\n")
         put("databytes", None if not c["databytes"] else b"%d\n" % c["databytes"])
         put("morercpthosts", b"".join(x + b"\n" for x in c["morercpthosts"]))
